@@ -15,6 +15,7 @@ inductive Beh where
   | panic
   | file (code declared : Nat) (actual : Option Nat)   -- response with a file body (`none` = file missing)
   | events (n : Nat) (code : Nat := 200)                -- event stream of n messages, then closed
+  | eventBurst (n : Nat)                                -- n events of 30 000 bytes queued before the response is returned
   | unwritable                                          -- a response with a Content-Length field of its own: refused before any byte
   | uploadThenEvents (k : Nat)                          -- fetch the body, then an event stream of the first min k 50 messages
 deriving Repr, DecidableEq
@@ -45,6 +46,7 @@ def parseBeh (s : String) : Beh :=
   if k == "S" then .uploadThenEvents n else
   if k == "Q" then .getBody 1000000 else
   if k == "U" then .unwritable else
+  if k == "B" then .eventBurst n else
   if k == "w" then .getBody 1000000 else
   if k == "n" then .normal n else if k == "g" then .getBody n else if k == "a" then .always n
   else if k == "d" then .drop else .panic
@@ -97,6 +99,9 @@ def handlerOf (reqs : List SReq) (v : ReqView) : HandlerOut :=
   | .always m => .getBody m
   | .drop => .drop
   | .panic => .panic
+  | .eventBurst n =>
+    .normal { code := 200, ctype := some (str "text/event-stream"),
+              body := ⟨none, { pieces := (List.range n).map fun i => EventModel.encode (.message (str s!"e{i+1}-{ps}-{String.ofList (List.replicate 30000 'b')}")) }⟩ }
   | .unwritable => .normal { Response.text 200 (str "x") with headers := [⟨str "Content-Length", str "1"⟩] }
   | .uploadThenEvents k =>
     match v.body with
